@@ -99,6 +99,43 @@ INAPPLICABLE = {
 INAPPLICABLE["ods"] = INAPPLICABLE["excel"]
 UNKNOWN_PROPERTIES = ["no such property", "foo", "delimiter", "separator", "headers", "item", "Item delimiter x",
                       "sheets", "quote", "line", "is valid"]
+_DOCUMENTED_PROPERTIES = ("allowed characters", "decimal separator", "encoding", "escape character", "format", "header",
+                          "item delimiter", "line delimiter", "quote character", "quoting", "sheet",
+                          "thousands separator")
+
+
+def _introspected_names():
+    """Names the code under test knows internally although no document gives them a meaning: every attribute of a data
+    format object (instance, class, inherited) read as a property name, and every field format / check class that is
+    not one of the documented types read as a type name.  All of them are unknown to the user, so a row using one
+    must be rejected like any other unknown name."""
+    from cutplace import checks, data, fields
+
+    properties, field_types, check_types = set(), set(), set()
+    # property keys the code declares as such (KEY_* constants) are supported even where the documents are silent
+    declared = set(_DOCUMENTED_PROPERTIES)
+    declared.update(str(getattr(data, name)).replace("_", " ").lower() for name in dir(data) if name.startswith("KEY_"))
+    for format_name in ("delimited", "fixed", "excel", "ods"):
+        for attribute in dir(data.DataFormat(format_name)):
+            if attribute.startswith("_"):
+                for name in (attribute[1:], attribute[1:].replace("_", " ").strip(), attribute[1:].upper()):
+                    if name.strip() and name.replace("_", " ").strip().lower() not in declared:
+                        properties.add(name)
+    for module, suffix, documented, found in (
+            (fields, "FieldFormat", ("Choice", "Constant", "DateTime", "Decimal", "Integer", "Pattern", "RegEx", "Text"),
+             field_types),
+            (checks, "Check", ("IsUnique", "DistinctCount"), check_types)):
+        for name in dir(module):
+            value = getattr(module, name)
+            if isinstance(value, type) and name.endswith(suffix) and name[:-len(suffix)] not in documented:
+                if name[:-len(suffix)]:
+                    found.add(name[:-len(suffix)])
+                found.add(name)
+    return sorted(properties), sorted(field_types), sorted(check_types)
+
+
+_INTROSPECTED = _introspected_names()
+UNKNOWN_PROPERTIES += [name for name in _INTROSPECTED[0] if name not in UNKNOWN_PROPERTIES]
 _BAD_INT = ["-1", "abc", "1.5", "", "one", "1 2"]
 BAD_VALUES = {
     "delimited": {
@@ -161,6 +198,8 @@ BAD_RULES = {
 DECIMAL_EMPTY_ITEM = [",1", ", 1...2", ",", ",1.5, 3"]
 DATETIME_DUPLICATE = [("DD.DD", "01.01"), ("hh:hh", "10:10"), ("YYYY-YYYY", "2000-2000"), ("MM/DD/MM", "01/02/01")]
 CHECK_TYPE_UNKNOWN = ["NoSuchCheck", "Unique", "Distinct", "IsUniqueCheck", "Count", "Is Unique"]
+TYPE_UNKNOWN += [name for name in _INTROSPECTED[1] if name not in TYPE_UNKNOWN]
+CHECK_TYPE_UNKNOWN += [name for name in _INTROSPECTED[2] if name not in CHECK_TYPE_UNKNOWN]
 MARKERS_UNKNOWN = ["x", "dd", "field", "#", "1", "\xe9", "FD", "d f", "check", "-"]
 COMMENT_TEXTS = ["", "D", "F", "C", "Format", "x", "X", "\xe4\xf6\xfc", '"', ",", "  ", "1...5", "Name", "Example",
                  "Empty", "Length", "Type", "Rule", "a comment", "IsUnique", "delimited", "中", "'", "0", "-"]
